@@ -141,9 +141,16 @@ def r3_retry_and_ack(ctx):
     ack = repo.func(f"{CM}.ReliableSender.ack")
     ctx.analysed(ack.qual)
     for idx, want in ((4, [3, 5]), (9, [3, 4, 5])):
-        paths = Interp(repo).explore(ack, env={"self.inflight": {3: _rec(1, 5), 4: _rec(1, 5), 5: _rec(1, 5)}}, args={"idx": idx})
+        paths = Interp(repo).explore(ack, env={"self.inflight": {3: _rec(1, 2), 4: _rec(1, 5), 5: _rec(7, 1, host="H2")}}, args={"idx": idx})
         for p in paths:
             left = sorted(p.heap["self.inflight"].keys())
+            others = {k: (r.fields.get("remaining"), r.fields.get("at"), r.fields.get("host")) for k, r in p.heap["self.inflight"].items() if isinstance(r, Obj)}
+            touched = {k: v for k, v in others.items() if v != {3: (2, 1, "H"), 4: (5, 1, "H"), 5: (1, 7, "H2")}[k]}
+            if p.exit[0] == "return" and left == want and touched:
+                ctx.violation("C06.R7", ack.qual, loc(ack), "ack leaves the other in-flight records alone",
+                              f"in flight 3 (2 retries left), 4, 5; Ack({idx}) changes the retry budget / timestamp of {touched} (remaining, at, host): the budget is what "
+                              f"bounds the retries of a message whose every copy is lost — refilled by unrelated traffic it never runs out, and the sender never raises")
+                continue
             if p.exit[0] != "return" or left != want:
                 ctx.violation("C06.R7", ack.qual, loc(ack), "ack removes exactly its index",
                               f"in flight {{3,4,5}}, Ack({idx}) leaves {left} (expected {want}): an acknowledgement of one message must not discharge another — "
